@@ -1,5 +1,6 @@
 import random
 import string
+import sys
 from datetime import datetime
 from random import choices
 from typing import Iterable, Iterator
@@ -53,17 +54,19 @@ def random_strings(min_size: int = 0, max_size: int = 10) -> Iterator:
 
 
 def random_floats(lower: float | None = None, upper: float | None = None) -> Iterator:
-    # defaults -1e-6 and 1e6, widened so that they never cross the bound that was given
+    # defaults -1e-6 and 1e6, widened so that they never cross the bound that was given; kept finite, because 2 * bound
+    # overflows to inf beyond 8.9e307 and random.uniform with an infinite end yields nan
+    # (an infinite bound that was given stays: beyond the largest double only inf itself is left)
     if lower is None:
-        lower = -1e-6 if upper is None else min(-1e-6, 2 * upper)
+        lower = -1e-6 if upper is None else min(upper, max(min(-1e-6, 2 * upper), -sys.float_info.max))
     if upper is None:
-        upper = max(1e6, 2 * lower)
+        upper = max(lower, min(max(1e6, 2 * lower), sys.float_info.max))
 
     yield lower
     yield upper
     # TODO: maybe first generate_true some smaller float
     while True:
-        yield random.uniform(lower, upper)
+        yield random.uniform(lower, upper) if lower < upper else lower
 
 
 def random_ints(lower: int | None = None, upper: int | None = None) -> Iterator[int]:
